@@ -1,5 +1,31 @@
-import BioCantor.Spec.LocationCheck
-import BioCantor.Model.Location
+/-
+  C01 — Location <-> parent coordinate maps are exact, mutually inverse and strand-aware.
+
+  Property theorems only (helper lemmas live in BioCantor/Proofs).  Every theorem quantifies over ALL
+  well-formed locations (`WF` = what the constructors establish: any number of blocks, zero-length,
+  adjacent, nested and duplicate blocks included), all strands and all integer arguments.
+  `ans` turns a result into the observable answer (`some v` / `none` = raised).
+-/
+import BioCantor.Proofs.PointMaps
 namespace BioCantor.Props.C01
-theorem placeholder : True := trivial
+open BioCantor BioCantor.Spec BioCantor.Model BioCantor.Proofs
+
+/-- T1: relative → parent enumerates the bases 5'→3' (defined exactly on `0 ≤ r < len`). -/
+theorem r2p_spec (l : Location) (h : WF l) (r : Int) : okR2P l r (ans (r2p l r)) = true :=
+  r2p_ok l h r
+
+/-- T2: parent → relative is the index of the first occurrence; uncovered positions are refused. -/
+theorem p2r_spec (l : Location) (h : WF l) (p : Int) : okP2R l p (ans (p2r l p)) = true :=
+  p2r_ok l h p
+
+/-- T2 corollary (all layouts, self-overlapping included): `r2p` inverts `p2r`. -/
+theorem r2p_inverts_p2r (l : Location) (h : WF l) (p r : Int) (hp : p2r l p = .ok r) :
+    r2p l r = .ok p :=
+  r2p_of_p2r l h p r hp
+
+-- non-vacuity: a minus-strand layout with a zero-length block, a 0-bp gap and a nested block is WF
+example : WF (.compound ⟨[(0, 5), (2, 3), (5, 9), (5, 5)], .minus⟩) := by decide
+example : r2p (.compound ⟨[(0, 5), (5, 9), (5, 5)], .minus⟩) 4 = .ok 4 := by rfl
+example : p2r (.compound ⟨[(0, 5), (5, 9), (5, 5)], .minus⟩) 4 = .ok 4 := by rfl
+
 end BioCantor.Props.C01
